@@ -852,7 +852,7 @@ def run(ctx):
         a.error("harness cannot reach seam: " + err)
         return
     t0 = time.time()
-    _KEYS = KS.build_keys(a, q)
+    _KEYS = KS.build_keys(a, q, ctx.pmap)
     if a.errors:
         return
     phases = {"keys": round(time.time() - t0, 1)}
